@@ -42,7 +42,7 @@ void derivatives(vf::Ctx& c, double roll) {
       M3 fd = fdR(a, k);
       M3 res = *got[k] - fd;
       for (int i = 0; i < 9; ++i) c.obs((*got[k])(i / 3, i % 3));
-      double tol = 1e-7;
+      double tol = 1e-9;
       std::string params = vf::JO().num("roll", roll).num("pitch", pitch).num("yaw", yaw).str("matrix", names[k]).done();
       if (res.norm() > tol) {
         bool isStray = (res - stray[k]).norm() <= tol;
@@ -59,8 +59,8 @@ void derivatives(vf::Ctx& c, double roll) {
         if ((d.col(k) - (*got[k]) * t).norm() > 1e-12 * (1 + t.norm())) c.violation("SmartRotation3D.dRTdAngles.vsMatrixTimesVector", vf::JO().num("roll", roll).num("pitch", pitch).num("yaw", yaw).i("angle", k).done(), "{}");
         V3 fdv = fdR(a, k) * t;
         V3 res = d.col(k) - fdv;
-        if (res.norm() > 1e-7 * (1 + t.norm())) {
-          bool isStray = (res - stray[k] * t).norm() <= 1e-7 * (1 + t.norm());
+        if (res.norm() > 1e-9 * (1 + t.norm())) {
+          bool isStray = (res - stray[k] * t).norm() <= 1e-9 * (1 + t.norm());
           c.violation(std::string("SmartRotation3D.dRTdAngles") + (isStray ? ".strayIdentityTerm" : ""), vf::JO().num("roll", roll).num("pitch", pitch).num("yaw", yaw).i("angle", k).vec("vector", std::vector<double>{t[0], t[1], t[2]}).done(),
                       vf::JO().num("residual_norm", res.norm()).done());
         }
@@ -123,7 +123,7 @@ void pose_cov(vf::Ctx& c, size_t it) {
       double err = (r.covariance - want).norm() / scale;
       std::string params = vf::JO().u("transform", it).vec("pose_rpy", std::vector<double>{atts[ia][0], atts[ia][1], atts[ia][2]}).vec("pose_xyz", std::vector<double>{poss[ip][0], poss[ip][1], poss[ip][2]}).u("covariance", ic).done();
       c.note_max("pose_cov_rel_err", err);
-      if (!(err <= 1e-6)) c.violation("Pose3D.transform.covariance", params, vf::JO().num("rel_err", err).done());
+      if (!(err <= 1e-8)) c.violation("Pose3D.transform.covariance", params, vf::JO().num("rel_err", err).done());
       double asym = (r.covariance - r.covariance.transpose()).norm() / scale;
       Eigen::SelfAdjointEigenSolver<M6> es((r.covariance + r.covariance.transpose()) / 2);
       if (asym > 1e-12 || es.eigenvalues().minCoeff() < -1e-9 * scale) c.violation("Pose3D.transform.covariance.notSymmetricPSD", params, vf::JO().num("asymmetry", asym).num("min_eig", es.eigenvalues().minCoeff()).done());
@@ -160,7 +160,7 @@ template <class S> void ls_cov(vf::Ctx& c, const char* tname) {
     LM want = Al * inv * Al.transpose() * (long double)var;
     Eigen::JacobiSVD<LM> svd(Jl); long double kappa = svd.singularValues()(0) / svd.singularValues()(p - 1);
     long double eps = std::numeric_limits<S>::epsilon();
-    long double tol = 64 * eps * kappa * kappa + 1e-300L;
+    long double tol = 16 * eps * kappa * kappa + 1e-300L;
     long double err = (cov.template cast<long double>() - want).norm() / want.norm();
     c.eval(); c.nontrivial();
     for (int i = 0; i < p * p; ++i) c.obs((double)cov(i / p, i % p));
@@ -189,9 +189,9 @@ std::string vf_describe(const std::string& tier) {
   g_th = tier == "thorough";
   vf::JO o;
   o.vec("roll_yaw", rollyaw()).vec("pitch", pitches());
-  o.str("finite_differences", "central differences with Richardson extrapolation (h=1e-4, 5e-5) of the library's own R() and operator*(Affine3d,Pose3D); tolerance 1e-7 absolute (rotation derivatives), 1e-6 relative (covariances)");
+  o.str("finite_differences", "central differences with Richardson extrapolation (h=1e-4, 5e-5) of the library's own R() and operator*(Affine3d,Pose3D); tolerance 1e-9 absolute (rotation derivatives), 1e-8 relative (covariances)");
   o.u("transforms", transforms().size()).u("attitudes", attitudes().size()).u("covariances", cov_catalogue().size());
-  o.str("least_squares", "estimate size 1..6, data size {p,p+3,40}, Cholesky and SVD, preconditioner {none, diag(0.5+j)+offset, diag(1e3/1e-3)+offset}, second problem on a reused solver; design matrix magnitude {1, 2^-17, 2^10} (float {1, 2^-6, 2^6}); float and double; tolerance 64 eps kappa(J)^2");
+  o.str("least_squares", "estimate size 1..6, data size {p,p+3,40}, Cholesky and SVD, preconditioner {none, diag(0.5+j)+offset, diag(1e3/1e-3)+offset}, second problem on a reused solver; design matrix magnitude {1, 2^-17, 2^10} (float {1, 2^-6, 2^6}); float and double; tolerance 16 eps kappa(J)^2");
   return o.done();
 }
 
